@@ -250,6 +250,22 @@ class Harness:
         self.tr[p].state = "lost"
         self._guard(p, lambda: self.peer[p].connectionLost(Failure(exc)))
 
+    def units_to_bytes(self, p, units):
+        """n spec units (half boxes) -> bytes, given what is in p's pipe (schedule choice only)"""
+        cur, i, n = self.moff[p], 0, 0
+        for _ in range(units):
+            if i >= len(self.msgs[p]):
+                break
+            size = self.msgs[p][i]
+            if cur < size // 2:
+                n += size // 2 - cur
+                cur = size // 2
+            else:
+                n += size - cur
+                cur = 0
+                i += 1
+        return n
+
     def next_boundary(self, p):
         """bytes up to the end of the first incompletely delivered write of p (schedule choice only)"""
         return (self.msgs[p][0] - self.moff[p]) if self.msgs[p] else len(self.pipe[p])
@@ -268,12 +284,14 @@ def run_rpc(cfg, ops):
             h.call(op[1], op[2])
             ev.append({"e": "call", "p": op[1], "k": op[2], "obs": h.obs})
             rops.append(["call", op[1], op[2]])
-        elif k in ("deliver", "deliver_box"):
+        elif k in ("deliver", "deliver_box", "deliver_units"):
             p = op[1]
             if not h.can_deliver(p):
                 continue
             if k == "deliver":
                 n = op[2]
+            elif k == "deliver_units":              # spec units: every box is 2 units = (first half, second half) of its bytes
+                n = h.units_to_bytes(p, op[2])
             else:                                   # a fraction num/den of the way to the next write boundary (>= 1 byte)
                 b = h.next_boundary(p)
                 n = max(1, (b * op[2]) // op[3])
@@ -539,6 +557,24 @@ def run(ctx):
     for _ in range(ctx.pick(1500, 60000)):
         cfg = {"wac": bool(rng.random() < 0.5)}
         traces.append(run_rpc(cfg, random_ops(rng, rng.randint(6, 40), rng.choice([1, 2, 3, 4, 6]))))
+    # (C) spec -> code: behaviours generated by TLC from AmpRPC are stepped through the two real peers; the real
+    # observations of every step must be the predicted ones (sizes aside); every run is validated by TLC below too.
+    behs = ctx.simulate("AmpRPCSim", "AmpRPCSim.cfg", num=ctx.pick(150, 4000), depth=14)
+    drift = 0
+    for b in behs:
+        ops = []
+        for hh in b["hist"]:
+            e = hh["e"]
+            ops.append(("call", hh["p"], hh["k"]) if e == "call" else ("deliver_units", hh["p"], hh["n"]) if e == "deliver"
+                       else ("fire", hh["c"]) if e == "fire" else ("close", hh["p"]) if e == "close"
+                       else ("drop",) if e == "drop" else ("notify", hh["p"]))
+        t = run_rpc(b["cfg"], ops)
+        strip = lambda obs: [[o[0], o[1], o[2], 0 if o[0] == "wr" else o[3]] for o in obs]
+        if [(e["e"], strip(e["obs"])) for e in t["ev"]] != [(hh["e"], strip(hh["obs"])) for hh in b["hist"]]:
+            drift += 1
+        traces.append(t)
+    ctx.extra["spec_behaviours_replayed"] = len(behs)
+    ctx.extra["spec_behaviours_not_reproduced"] = drift      # each of these is also rejected by TLC below
     ctx.exhaustive = False
     ctx.note_traces(traces)
     ctx.log("recorded %d real executions (%d sweep runs over %d scenarios)" % (len(traces), nsweep, len(scen)))
